@@ -50,6 +50,14 @@ Theorem C03_parts_in_line_order : forall sh l,
   Forall (fun its => increasing (map item_ln its)) (report (seq_run sh l)).
 Proof. exact report_line_order. Qed.
 
+(* a definition without an end reports exactly one section per line matching
+   its start pattern, however many there are (used by the many-sections
+   run of the harness, where only the number and the ids are compared) *)
+Theorem C03_noend_one_section_per_start : forall sh l,
+  has_end sh = false ->
+  length (report (seq_run sh l)) = length (filter is_start l).
+Proof. exact report_noend_count. Qed.
+
 (* --- earlier_sections_stable ------------------------------------------- *)
 (* the sections closed by a line of l1 are reported identically (same ids,
    same parts, same position) whatever follows l1 *)
@@ -128,9 +136,12 @@ Theorem C03_sequence_search_shape :
   calls_only_list tk_sequence_search = expected_sequence_search.
 Proof. vm_compute. reflexivity. Qed.
 
-Theorem C03_process_sequence_results_shape :
-  calls_only_list tk_process_sequence_results
-  = expected_process_sequence_results.
+(* _process_sequence_results: the calls that matter and the number of loops
+   around each - the end pattern is run and its result added once per
+   definition, results are exported once per (sequence, result) - whatever
+   the way its tests are written (merged, nested, early `continue`) *)
+Theorem C03_process_sequence_results_calls :
+  eof_calls sk_process_sequence_results = true.
 Proof. vm_compute. reflexivity. Qed.
 
 (* (b) interpreting the extracted tree of _sequence_search - each call event
@@ -145,14 +156,18 @@ Proof.
   destruct he, stt, cs, ce, hb, cb; vm_compute; reflexivity.
 Qed.
 
-(* the per-definition part of the end-of-file pass: skipped unless started
+(* the per-definition part of the end-of-file pass, interpreted with tests
+   classified by what they read (Model/SequenceSk.v [einterp]; robust to
+   merged / split / nested / re-ordered guards): skipped unless started
    and with an end; the end pattern is run on ''; a match adds an end result
    to the current section, no match puts the current section in the filter *)
 Theorem C03_process_sequence_results_is_eof_action : forall sh k,
-  run_eof_tree tk_process_sequence_results sh k = Some (eof_action sh k).
+  eof_outcomes tk_process_sequence_results sh k <> [] /\
+  Forall (fun o => o = Some (eof_action sh k))
+         (eof_outcomes tk_process_sequence_results sh k).
 Proof.
   intros [he hb ee] [stt cu nx].
-  destruct he, stt, ee; vm_compute; reflexivity.
+  destruct he, stt, ee; vm_compute; (split; [discriminate | repeat constructor]).
 Qed.
 
 (* ... and [seq_eof] is the application of that action (the end result is
@@ -280,6 +295,7 @@ Print Assumptions C03_sequence_exact.
 Print Assumptions C03_sequence_exact_ids.
 Print Assumptions C03_section_ids_distinct.
 Print Assumptions C03_parts_in_line_order.
+Print Assumptions C03_noend_one_section_per_start.
 Print Assumptions C03_earlier_sections_stable.
 Print Assumptions C03_spec_sections_prefix.
 Print Assumptions C03_independence.
@@ -288,7 +304,7 @@ Print Assumptions C03_ids_distinct_across_definitions.
 Print Assumptions C03_legacy_sequence_refuted.
 Print Assumptions C03_run_search_shape.
 Print Assumptions C03_sequence_search_shape.
-Print Assumptions C03_process_sequence_results_shape.
+Print Assumptions C03_process_sequence_results_calls.
 Print Assumptions C03_sequence_search_is_ctl_step.
 Print Assumptions C03_process_sequence_results_is_eof_action.
 Print Assumptions C03_seq_eof_applies_eof_action.
